@@ -4,6 +4,11 @@ import "github.com/jsightapi/jsight-schema-core/notations/jschema/ischema"
 
 func AddUnnamedTypes(rootSchema *ischema.ISchema) {
 	for name, typ := range rootSchema.TypesList() {
+		if typ.Schema == rootSchema {
+			// The schema registered as a type of itself: its list of types is
+			// the one being filled, nothing of it belongs to that name.
+			continue
+		}
 		for unnamed, unnamedTyp := range typ.Schema.TypesList() {
 			rootSchema.AddUnnamedTypeOf(name, unnamed, unnamedTyp)
 		}
